@@ -31,11 +31,10 @@ claim('C04',
       'Fermat clause proved at full strength (Props/C04.lean fermat_exact): for all distinct odd primes p<q and every step bound, FermatFactor(pq, steps) = (q,p) '
       'iff (p+q)/2 - ceil(sqrt(pq)) < steps, else None; even and square moduli by the shortcuts. For the guess-based clauses: the exact success condition of the '
       'Fermat step inside FactorWithGuess (fwg_one_step: ceil(sqrt(4uvn)) = uq+vp iff (uq-vp)^2 < 2(uq+vp)-1), what it returns (fwg_step_post: both primes), '
-      'the guess algebra (sud_guess_exact) and the list of differences tried (sud_differences) are theorems; soundness is C01. NOT proved: that every modulus of the '
-      'equal-high/low-bits, small-upper-difference and unseeded-PRNG families reaches that condition (depends on a float cube root and on continued-fraction convergents); '
-      'those clauses are evaluated directly on the implementation on every run for generated members of each family (all six differences, every listed unseeded output size, '
+      'the guess algebra (sud_guess_exact) and the list of differences tried (sud_differences) are theorems; soundness is C01. That the three families REACH that condition is proved too — see the additions below (hlbe_complete; Props/C04Guess.lean) — under an explicit gap bound and oracle hypothesis; '
+      'in addition those clauses are evaluated directly on the implementation on every run for generated members of each family (all six differences, every listed unseeded output size, '
       '(r,s) splits at the boundary) and any miss is reported as a violation with the modulus as replay. Two genuine defects found this way were repaired in /repo (D6a, D6b).',
-      'Trusted: Lean kernel, correspondence harness. Float cube root is an oracle value recomputed by the harness with the same expression. Family-completeness clauses are search, not proof.',
+      'Trusted: Lean kernel, correspondence harness. Float cube root is an oracle value recomputed by the harness with the same expression. Family completeness is proved under the explicit gap bound GapOK and the oracle hypothesis CbrtOK (see the additions); that real prime gaps satisfy GapOK is number theory, not proved.',
       'Lean 4 proof (exact characterisation of Fermat; one-step condition) + differential correspondence + property search on the implementation',
       'DESIGN.md section 5 C04, section 6 D6')
 
@@ -398,7 +397,7 @@ claim('C18',
 
 
 claim('C12',
-      'Lean theorems (Props/C12.lean, 49 theorems) over an exact executable model of every NIST SP 800-22 test in nist_suite.py '
+      'Lean theorems (Props/C12.lean, 49 theorems; 127 with the extension files below) over an exact executable model of every NIST SP 800-22 test in nist_suite.py except Spectral (float FFT: cross-check only) '
       'and of LargeBinaryMatrixRank / LinearComplexityScatter (Model/Nist.lean: parameter choice or Python exception, integer counts, '
       'exact rational statistic), for every bit string and length: '
       '(1) parameter ladders and insufficient-data conditions as iff-characterisations (BlockFrequency n<100 and block size; LongestRuns n<128 and '
@@ -588,3 +587,19 @@ _add('C12', 'Props/C12Errors.lean (29 theorems; review finding F11): for every m
 CATEGORY['C05'] = 'other'   # LLL returns the planted vector; low-Hamming-weight heuristic
 CATEGORY['C08'] = 'other'   # LLL returns the planted row
 CATEGORY['C13'] = 'other'   # sentences 1-2 are distributional: search only
+
+# ---- third round: guess-based completeness (C04), remaining statistic statements (C12), second review
+_add('C04', 'Guess-based clauses are now COMPLETENESS THEOREMS for the repaired FactorWithGuess (Props/C04Guess.lean, Props/C04GuessCert.lean, 14 theorems; proofs Proofs/FwgComplete*.lean). fwg_complete: for any two L-bit numbers P, Q (no primality, parity or coprimality needed), a guess within E of P with GapOK(L,E): (E+2)^2*2^12 <= 2^(L/2) (E+2 <= 2^(L/4-6), i.e. E < 2^90 at L=384), and EVERY value of the float cube-root oracle with CbrtOK (n <= 8*bound^3 and 16*bound^3 <= 81*n, bound in [0.5,1.717]*n^(1/3)), '
+            'FactorWithGuess returns a proper split [g, n/g]; no hypothesis on the convergents (induction over Euclid\'s algorithm: every failing admissible convergent has remainder >= 2^(L/2) and u*v <= bound, remainder 0 cannot fail). sud_complete: L >= 384, q = p + D + g for each of the six documented D, GapOK(L,g) => CheckSmallUpperDifferences returns a proper split, {p,q} for primes (sud_complete_primes, sud_check_complete). '
+            'unseeded_complete: a prime p with x <= p <= x+G for a tried candidate x (listed output or msb variant), GapOK(L,G), any L-bit cofactor => CheckUnseededRand flags the key and records {p,q}. Non-vacuity: real 768/1024-bit members with kernel-checked hypotheses, and a Pratt-certified 384-bit pair. NOT proved: (1) that "q is the next prime after p+D" / "within a prime gap" implies GapOK — true for every known prime gap by > 60 bits but a number-theoretic fact, evaluated on planted next_prime members every run; '
+            '(2) that the real float expression satisfies CbrtOK — checked on every modulus sent (observed bound^3/n in [1-6e-13, 1]); (3) gaps between the bound (~n^(1/8)) and the experimental frontier (~n^(1/6)) — sampled, statistics only; (4) the iteration order of the Python set of msb variants is recorded, not modelled.')
+_add('C12', 'Props/C12Stats.lean (24 theorems): LinearComplexity as a function of the bit string — each block value is the true shortest-LFSR length (C14 composed end to end, M <= 2^30), the code\'s integer binning equals NIST\'s classes of T = (-1)^M (L - mu) + 2/9 (exact rationals) for even M and the mirrored classes for odd M, T is never on a class boundary, the shipped pi tables are NIST\'s (mirrored for odd M), hence the chi-square handed to igamc is NIST\'s sum (nu_i - N pi_i)^2/(N pi_i); raises InsufficientDataError exactly for M < 10 or n < 200 M. '
+            'NonOverlappingTemplateMatching: per block and template the count equals the number of hits of NIST\'s scan (recursive spec, every non-overlapping template of length >= 1), mean / variance / chi-square as exact rationals, variance > 0. LargeBinaryMatrixRank: which sizes, which size x size sub-matrix (bit i*size + c), GF(2) span rank of exactly that matrix (C15 composed), p-value = table literal. LinearComplexityScatter: interleaved sequences, shortest-LFSR length of each (C14/C15 composed, sizes <= 2^30). '
+            'Integer-API invariances: bitList(ReverseBits(bits,n)) = reverse, bitList(rotated int) = rotate, so the list-level invariances of Frequency, Runs, Serial / ApproximateEntropy and cusum hold for the functions of the int. Still float / oracle only: every tail function (igamc, erfc, binom.cdf) and so every p-value; the float-underflow oracles; ASYMPTOTIC_RANK_SF as a distribution, the Universal table, the OTM Markov chain; Spectral (no Lean object: the comparison |S_j|^2 < n ln 20 is between an algebraic and a transcendental number and the code decides it in float64 after an FFT — a theorem about the exact count would not be a theorem about the code). '
+            'Model preconditions (parameters >= 1: step, template length m, max_cnt) are hypotheses of the raise theorems; at parameter 0 model and Python differ and nothing is claimed.')
+_add('C06', 'D21, second half (found by the second review, /repo fix bd690e6): generate_key also never returns for EVEN sizes whose primes would have three or more forced zero bits ((bits // 2) % 8 >= 3, e.g. 2046, 2044, 2040, 70 bits: generate_prime draws whole random bytes below a forced top bit — product_size_never_reached). The check now regenerates only for keypairSizeOk sizes (bits even and (bits // 2) % 8 <= 2): keypair_unsupported_size, keypair_short_prime_size, keypair_gen_supported_only; a table prefix in front of every size residue modulo 16 is generated on every run under an alarm.')
+_add('C18', 'D21, second half: CheckKeypairDenylist / CheckAllRSA also hung on even sizes with (bits // 2) % 8 >= 3 and a table prefix (fix bd690e6; keypair_gen_supported_only: the model consults the generator oracle only for sizes it can produce; odd AND unsupported even sizes with a table prefix are part of every C06 / C18 / RsaAll run; seeded/D21b-revert).')
+_add('C08', 'KNOWN FINDING D23 (recorded, not repaired): at the property\'s own margin (signatures x biased bits >= 2 x curve size) the real checks MISS issuers whose bias is spread over few signatures — secp384r1 4 x 192 zero top bits, secp521r1 9 x 116 and 14 x 75 (prefix), secp256r1 4 x 128 (prefix): the default lattice weight 2^int(1.25*bitlen/len) is far below a wide bias and one LLL run per window is all the check tries; replayed deterministically on every run (harness/corr/c08_margin.py). '
+            'With 20-24 signatures in one window at the same product 2160 of 2160 measured instances on secp256r1 / secp256k1 / secp384r1 / secp521r1 x MSB / prefix / postfix are found: that region is gated on every run (a miss is a violation with the signature set as replay).')
+_add('C05', 'KNOWN FINDING D24 (recorded, not repaired): the clause "both primes have Hamming weight at most 32 => flagged" is false on the real best-first search for sparse primes that start with a run of one-bits — witness: a 1024-bit product of two primes of weight 15, CheckLowHammingWeight returns (False, []) (found by the second review, replayed every run). Primes with randomly placed bits were flagged 136/136; 8 leading ones + 3 random bits are missed in about 0.5 % of draws. '
+            'The check therefore gates a FIXED corpus of low-weight keys that the unchanged tree flags (harness/corpus/c05_lhw.json; the search is deterministic, so no seed can raise a false alarm) and treats freshly drawn keys as statistics.')
